@@ -21,19 +21,11 @@ use crate::hook::{K_FETCH_ADD, K_LOAD, K_STORE, O_ACQREL, O_ACQUIRE, O_RELEASE, 
 /// maximal number of threads (arrays); the number in use is `VH_TN`
 pub const T: usize = 4;
 pub static mut VH_TN: usize = 2;
-/// number of guessed events per thread in use (<= M); loops are bounded by it
-pub static mut VH_TM: usize = M;
-/// model of the wrapped iterator's `next`: false = one atomic event (quick tier: fits the 900 s budget),
-/// true = two events, position read and position write-back (thorough tier: overlapping calls duplicate elements)
-pub static mut VH_TWOPHASE: bool = false;
 /// events per thread
-pub const M: usize = 8;
+pub const M: usize = 7;
 pub const NLOC: usize = 4;
 pub const LOC_ITER: u8 = 3;
-/// the wrapped iterator's `next` is NOT atomic: it reads the position (K_ITER) and, if an element exists,
-/// writes the advanced position back (K_ITERW); two overlapping calls both read the same position
 pub const K_ITER: u32 = 3;
-pub const K_ITERW: u32 = 4;
 pub const NO_PRED: u8 = 255;
 
 #[derive(Clone, Copy)]
@@ -100,37 +92,32 @@ fn small(v: usize) -> bool {
 fn step_after(kind: u32, operand: usize, before: usize, len: usize) -> usize {
     if kind == K_LOAD {
         before
-    } else if kind == K_ITER {
-        // atomic model: the call takes the element at once; two-phase model: this is only the read
-        if unsafe { VH_TWOPHASE } || before >= len {
-            before
-        } else {
-            before + 1
-        }
-    } else if kind == K_STORE || kind == K_ITERW {
+    } else if kind == K_STORE {
         operand
-    } else {
+    } else if kind == K_FETCH_ADD {
         before.wrapping_add(operand)
+    } else if before < len {
+        before + 1
+    } else {
+        before
     }
 }
 
 /// Guesses the trace and validates it. `total` = number of events of all threads.
-pub fn guess_and_validate(len: usize, hb: bool, nthreads: usize, tm: usize, twophase: bool) {
+pub fn guess_and_validate(len: usize, hb: bool, nthreads: usize) {
     unsafe {
         VH_TN = nthreads;
-        VH_TM = tm;
-        VH_TWOPHASE = twophase;
         VH_TLEN = len;
         let mut total = 0usize;
         let mut t = 0;
         while t < VH_TN {
             let c: usize = kani::any();
-            kani::assume(c <= VH_TM);
+            kani::assume(c <= M);
             VH_TCNT[t] = c;
             VH_TCUR[t] = 0;
             total += c;
             let mut j = 0;
-            while j < VH_TM {
+            while j < M {
                 if j < c {
                     let e = TEv {
                         ts: kani::any(),
@@ -165,8 +152,8 @@ pub fn guess_and_validate(len: usize, hb: bool, nthreads: usize, tm: usize, twop
                     }
                     kani::assume((e.ts as usize) < total_bound());
                     kani::assume((e.loc as usize) < NLOC);
-                    kani::assume(e.kind <= if twophase { K_ITERW } else { K_ITER });
-                    kani::assume((e.kind == K_ITER || e.kind == K_ITERW) == (e.loc == LOC_ITER));
+                    kani::assume(e.kind <= K_ITER);
+                    kani::assume((e.kind == K_ITER) == (e.loc == LOC_ITER));
                     kani::assume(small(e.operand) && small(e.before));
                     kani::assume(e.after == step_after(e.kind, e.operand, e.before, len));
                     if j > 0 {
@@ -182,7 +169,7 @@ pub fn guess_and_validate(len: usize, hb: bool, nthreads: usize, tm: usize, twop
         let mut t = 0;
         while t < VH_TN {
             let mut j = 0;
-            while j < VH_TM {
+            while j < M {
                 if j < VH_TCNT[t] {
                     let e = VH_TEV[t][j];
                     kani::assume((e.ts as usize) < total);
@@ -190,7 +177,7 @@ pub fn guess_and_validate(len: usize, hb: bool, nthreads: usize, tm: usize, twop
                     let mut u = t + 1;
                     while u < VH_TN {
                         let mut k = 0;
-                        while k < VH_TM {
+                        while k < M {
                             if k < VH_TCNT[u] {
                                 kani::assume(VH_TEV[u][k].ts != e.ts);
                             }
@@ -207,7 +194,7 @@ pub fn guess_and_validate(len: usize, hb: bool, nthreads: usize, tm: usize, twop
         let mut t = 0;
         while t < VH_TN {
             let mut j = 0;
-            while j < VH_TM {
+            while j < M {
                 if j < VH_TCNT[t] {
                     let e = VH_TEV[t][j];
                     let mut found = e.pred == NO_PRED;
@@ -222,7 +209,7 @@ pub fn guess_and_validate(len: usize, hb: bool, nthreads: usize, tm: usize, twop
                     let mut u = 0;
                     while u < VH_TN {
                         let mut k = 0;
-                        while k < VH_TM {
+                        while k < M {
                             if k < VH_TCNT[u] {
                                 let g = VH_TEV[u][k];
                                 if g.loc == e.loc && g.ts < e.ts {
@@ -247,7 +234,7 @@ pub fn guess_and_validate(len: usize, hb: bool, nthreads: usize, tm: usize, twop
                         base[t] = base[t].wrapping_add(1);
                         let is_load = e.kind == K_LOAD;
                         let is_rmw = e.kind == K_FETCH_ADD;
-                        let is_iter = e.kind == K_ITER || e.kind == K_ITERW;
+                        let is_iter = e.kind == K_ITER;
                         let joins = (is_load || is_rmw) && acq(e.ord);
                         let mut x = 0;
                         while x < VH_TN {
@@ -294,7 +281,7 @@ pub fn guess_and_validate(len: usize, hb: bool, nthreads: usize, tm: usize, twop
             let mut t = 0;
             while t < VH_TN {
                 let mut j = 0;
-                while j < VH_TM {
+                while j < M {
                     if j < VH_TCNT[t] {
                         let e = VH_TEV[t][j];
                         if e.loc as usize == l && (e.ts as usize) + 1 > best {
@@ -360,9 +347,9 @@ pub fn waited() -> bool {
         let mut t = 0;
         while t < VH_TN {
             let mut j = 0;
-            while j < VH_TM {
+            while j < M {
                 let mut k = j + 1;
-                while k < VH_TM {
+                while k < M {
                     if k < VH_TCNT[t] {
                         let a = VH_TEV[t][j];
                         let b = VH_TEV[t][k];
@@ -482,8 +469,8 @@ pub unsafe fn trace_access(cell: *mut usize, kind: u32, ord: u32, operand: usize
     e.before
 }
 
-/// Called by the trace probe at the start of `next`: reads the probe position.
-pub fn iter_read() -> usize {
+/// Called by the trace probe for every `next` of the wrapped iterator; returns the probe position.
+pub fn iter_access() -> usize {
     unsafe {
         let t = VH_TID;
         if VH_TSOLO || VH_TCUR[t] >= VH_TCNT[t] {
@@ -498,24 +485,6 @@ pub fn iter_read() -> usize {
         kani::assume(e.ord == 0 && e.op == VH_TOP);
         VH_TCUR[t] = j + 1;
         e.before
-    }
-}
-
-/// Called by the trace probe when `next` has produced an element: writes the advanced position back.
-pub fn iter_write(newpos: usize) {
-    unsafe {
-        let t = VH_TID;
-        if VH_TSOLO || VH_TCUR[t] >= VH_TCNT[t] {
-            kani::assume(VH_TSOLO_ALLOWED);
-            VH_TSOLO = true;
-            solo_access(LOC_ITER as usize, K_ITERW, newpos);
-            return;
-        }
-        let j = VH_TCUR[t];
-        let e = VH_TEV[t][j];
-        kani::assume(e.kind == K_ITERW && e.loc == LOC_ITER && e.operand == newpos);
-        kani::assume(e.ord == 0 && e.op == VH_TOP);
-        VH_TCUR[t] = j + 1;
     }
 }
 
@@ -554,11 +523,8 @@ macro_rules! tprobe {
         impl Iterator for $name {
             type Item = usize;
             fn next(&mut self) -> Option<usize> {
-                let p = iter_read();
+                let p = iter_access();
                 if p < self.len {
-                    if unsafe { VH_TWOPHASE } {
-                        iter_write(p + 1);
-                    }
                     Some(p)
                 } else {
                     None
@@ -594,8 +560,8 @@ pub fn iter_race() -> (bool, bool) {
         let mut t = 0;
         while t < VH_TN {
             let mut j = 0;
-            while j < VH_TM {
-                if j < VH_TCNT[t] && (VH_TEV[t][j].kind == K_ITER || VH_TEV[t][j].kind == K_ITERW) {
+            while j < M {
+                if j < VH_TCNT[t] && VH_TEV[t][j].kind == K_ITER {
                     let e = VH_TEV[t][j];
                     if e.racy {
                         race = true;
@@ -605,13 +571,13 @@ pub fn iter_race() -> (bool, bool) {
                     while u < VH_TN {
                         if u != t {
                             let mut a = 0;
-                            while a < VH_TM {
+                            while a < M {
                                 let mut b = a + 1;
-                                while b < VH_TM {
+                                while b < M {
                                     if b < VH_TCNT[u] {
                                         let x = VH_TEV[u][a];
                                         let y = VH_TEV[u][b];
-                                        if x.loc == LOC_ITER && y.loc == LOC_ITER && x.op == y.op && x.ts < e.ts && e.ts < y.ts {
+                                        if x.kind == K_ITER && y.kind == K_ITER && x.op == y.op && x.ts < e.ts && e.ts < y.ts {
                                             overlap = true;
                                         }
                                     }
